@@ -197,6 +197,51 @@ func init() {
 		c.RequireCallers("C18d", pk+"Keeper.RemoveBadgeUsedCu", pk+"NewKeeper")
 		c.RequireCallers("C18d", pk+"Keeper.handleBadgeCu", pk+"msgServer.RelayPayment")
 		c.RequireCallers("C18d", pk+"Keeper.checkBadge", pk+"msgServer.RelayPayment")
+		c.Rule("C18e the checked badge is the recorded badge: an entry of the (badge user, epoch) → BadgeData map is written only on the not-found outcome of a lookup of the same key and past a successful ExtractSignerAddress, and its Badge field and the badge whose signer was extracted are the same relay.Badge")
+		nbd := 0
+		for _, f := range c.P.AllFuncs {
+			if !inProd(f) || !strings.HasPrefix(ir.FuncName(f), pk) {
+				continue
+			}
+			ir.EachInstr(f, func(in ssa.Instruction) {
+				mu, ok := in.(*ssa.MapUpdate)
+				if !ok || !strings.HasSuffix(ir.TypeName(mu.Value.Type()), "BadgeData") {
+					return
+				}
+				nbd++
+				key := "C18e/" + ir.FuncName(f) + "/badge-map-entry=first-checked-badge"
+				first := false
+				for _, g := range ir.Guards(mu) {
+					v, edge := stripNot(g.If.Cond, g.Edge)
+					if ex, isEx := v.(*ssa.Extract); isEx && ex.Index == 1 && !edge {
+						if lk, isLk := ex.Tuple.(*ssa.Lookup); isLk && lk.CommaOk && lk.X == mu.Map && (lk.Index == mu.Key || ir.DescN(lk.Index, 12) == ir.DescN(mu.Key, 12)) {
+							first = true
+						}
+					}
+				}
+				checked := ir.HasFact(ir.GuardFacts(mu), "call(utils/sigs.ExtractSignerAddress)(", "#1 == nil)")
+				flds := structFieldStores(allocOf(mu.Value))
+				same := false
+				if b, okB := flds["Badge"]; okB {
+					if s, okS := flds["BadgeSigner"]; okS {
+						// Badge: *P ; BadgeSigner: ExtractSignerAddress(*P)#0
+						bd := ir.Desc(b)
+						sd := ir.Desc(s)
+						if strings.HasPrefix(sd, "call(utils/sigs.ExtractSignerAddress)(") && strings.Contains(sd, bd) {
+							same = true
+						}
+					}
+				}
+				if first && checked && same {
+					c.OK(key, c.P.InstrPos(mu), "written once per (user, epoch), for the badge whose signature was checked")
+				} else {
+					c.Fail(key, c.P.InstrPos(mu), "the recorded badge can differ from the badge whose signer was recovered (first-seen="+boolStr(first)+" signer-checked="+boolStr(checked)+" same-badge="+boolStr(same)+"): a later, unsigned badge with a larger allocation is paid under the first badge's signature")
+				}
+			})
+		}
+		if nbd == 0 {
+			c.Undecided("C18e: no write to the badge data map found")
+		}
 		c.NotCovered("the sum of credited CU over histories; badge signature cryptography")
 	})
 }
